@@ -3349,6 +3349,20 @@ class StateEngine(object):
             # Parallel and Map states apply ResultPath to "raw input"
             data = branch_info["Input"]  # Get saved raw input
 
+            """
+            Restore the Map or Parallel state's own retry info. The context
+            still holds the retry info of the Branch/Iterator state whose
+            event triggered this, which must not count against the Map or
+            Parallel state's Retriers, whether it is a Branch's error or the
+            state's own ResultSelector, ResultPath or transition that fails.
+            """
+            context_state.pop("RetryCount", None)
+            context_state.pop("RetryTimeout", None)
+            if retry_count:
+                context_state["RetryCount"] = retry_count
+            if retry_timeout:
+                context_state["RetryTimeout"] = retry_timeout
+
             if error:
                 # Set range to terminate subsequent branches/iterations
                 branch_results["terminated"] = str(start) + ":" + str(end)
@@ -3366,19 +3380,6 @@ class StateEngine(object):
                 input because handle_error could result in a Retry/Catch.
                 """
                 event["data"] = data
-
-                """
-                Restore the Map or Parallel state's own retry info. The context
-                still holds the retry info of the Branch/Iterator state whose
-                event triggered this, which must not count against the Map or
-                Parallel state's Retriers.
-                """
-                context_state.pop("RetryCount", None)
-                context_state.pop("RetryTimeout", None)
-                if retry_count:
-                    context_state["RetryCount"] = retry_count
-                if retry_timeout:
-                    context_state["RetryTimeout"] = retry_timeout
 
                 """
                 Implement some Execution History updates that occur when Map
@@ -3452,16 +3453,19 @@ class StateEngine(object):
 
                 event["data"] = merge_result(data, context, result, state)
             except IntrinsicFailure as e:
+                event["data"] = data  # Any Retrier re-runs the state with its raw input
                 handle_error(state, "States.IntrinsicFailure", str(e))
                 # Acknowledge the events for each branch's terminal state
                 self.acknowledge_event_list(event_ids)
                 return
             except ResultPathMatchFailure as e:
+                event["data"] = data  # Any Retrier re-runs the state with its raw input
                 handle_error(state, "States.ResultPathMatchFailure", str(e))
                 # Acknowledge the events for each branch's terminal state
                 self.acknowledge_event_list(event_ids)
                 return
             except (PathMatchFailure, Exception) as e:
+                event["data"] = data  # Any Retrier re-runs the state with its raw input
                 handle_error(state, "States.Runtime", str(e))
                 # Acknowledge the events for each branch's terminal state
                 self.acknowledge_event_list(event_ids)
